@@ -31,6 +31,9 @@ fn main() {
         "sm2enc" => suites::sm2::drive_encrypt(&mut t, &tier, seed, plan),
         "sm2dec" => suites::sm2::drive_decrypt_faults(&mut t, &tier, seed, plan),
         "sm2kex" => suites::sm2::drive_kex(&mut t, &tier, seed, plan),
+        "rng" => suites::rng::drive(&mut t, &tier, seed, false),
+        "rngchild" => suites::rng::drive(&mut t, &tier, seed, true),
+        "sm2codec" => suites::sm2::drive_codec(&mut t, &tier, seed),
         "sm4blk" => suites::sm4::drive_block(&mut t, &tier, seed, plan),
         "sm4mode" => suites::sm4::drive_modes(&mut t, &tier, seed),
         _ => {
